@@ -399,6 +399,9 @@ def run(ck: Check) -> None:
     guard.campaign(ck, c01_extra.campaign_field_extras, run_case)
     guard.campaign(ck, c01_refs.campaign_pointers, run_case, 140 if quick else 1500, 4 if quick else 30)
     guard.campaign(ck, c01_allof.campaign_allof_required, run_case, 260 if quick else 3000)
+    from . import c01_placeholder
+
+    guard.campaign(ck, c01_placeholder.campaign_placeholders, 300 if quick else 4000)
     guard.campaign(ck, _campaign_templates, quick)
     guard.campaign(ck, tpl_search.self_test)
     probe, PROBE = PROBE, None
